@@ -162,6 +162,12 @@ def gen_ext_table(rng, cfg, number, method=None, opts=None):
         rows.append([I(-1000000007)] + [rpos(rng, emin=0, emax=2) if j < 4 else ZERO for j, c in enumerate(cols)] + [OBJ0])
         if rng.random() < 0.4:
             rows.append([I(-1000000008)] + [rsci(rng) for c in cols] + [OBJ0])
+    if o.get('fortran3', False):
+        # a value below 1e-99 in an early iteration: Fortran drops the E (1.00000-100)
+        cand = [(i, j) for i, r in enumerate(rows) if not r[0][1] for j, c in enumerate(cols) if not c[1]]
+        if cand:
+            i, j = rng.choice(cand)
+            rows[i][1 + j] = ['x', False, rsci(rng, zero_p=0)[2], True, str(rng.randint(100, 140))]
     design = opts.get('design')
     title = {'number': number, 'method': meth, 'design': design, 'goal': goal if rng.random() < 0.9 else None,
              'ids': [1, opts.get('subproblem', 0), 0, 0, 0, 0]}
@@ -320,7 +326,7 @@ def gen_fspec(rng):
     kind = rng.choice(['ext', 'ext', 'ext', 'ext', 'phi', 'phi', 'cov', 'cov', 'tab', 'tab', 'tab'])
     if kind == 'ext':
         n = rng.choice([1, 1, 1, 2, 3])
-        tables = [gen_ext_table(rng, cfg, k + 1) for k in range(n)]
+        tables = [gen_ext_table(rng, cfg, k + 1, opts={'fortran3': rng.random() < 0.06}) for k in range(n)]
         if rng.random() < 0.08:
             tables[-1]['title']['design'] = rng.choice(['D-OPTIMALITY', 'A_OPT', 'DS-OPTIMALITY'])
         suffix = '.ext'
